@@ -162,6 +162,7 @@ fn goldens() -> Vec<Golden> {
         Golden { name: "CJK + emoji", make: || Envelope::new("\u{6c34}\u{1f600}"), hex: "67e6b0b4f09f9880" },
         Golden { name: "24-char text", make: || Envelope::new("abcdefghijklmnopqrstuvwx"), hex: "78186162636465666768696a6b6c6d6e6f707172737475767778" },
         Golden { name: "bytes", make: || Envelope::new(dcbor::ByteString::from(vec![1u8, 2, 3])), hex: "43010203" },
+        Golden { name: "bytes that are one encoded item", make: || Envelope::new(dcbor::ByteString::from(vec![0x18u8, 0x2a])), hex: "42182a" },
         Golden { name: "empty bytes", make: || Envelope::new(dcbor::ByteString::from(Vec::<u8>::new())), hex: "40" },
         Golden { name: "true", make: || Envelope::new(true), hex: "f5" },
         Golden { name: "false", make: Envelope::r#false, hex: "f4" },
